@@ -101,6 +101,21 @@ class PyReader:
         for s in body:
             if isinstance(s, ast.Expr) and isinstance(s.value, ast.Constant):
                 continue
+            if isinstance(s, ast.Expr) and isinstance(s.value, ast.Call) and isinstance(s.value.func, ast.Attribute) \
+                    and s.value.func.attr in ("append", "extend", "insert"):
+                lst = self.ev(s.value.func.value, env, fns)
+                vals = [self.ev(a, env, fns) for a in s.value.args]
+                if not isinstance(lst, list):
+                    self.fail(s, "list method on a non-list")
+                if s.value.func.attr == "append" and len(vals) == 1:
+                    lst.append(vals[0])
+                elif s.value.func.attr == "extend" and len(vals) == 1 and isinstance(vals[0], list):
+                    lst.extend(vals[0])
+                elif s.value.func.attr == "insert" and len(vals) == 2 and isinstance(vals[0], int):
+                    lst.insert(vals[0], vals[1])
+                else:
+                    self.fail(s, "list method arguments")
+                continue
             if isinstance(s, ast.FunctionDef):
                 fns[s.name] = s
             elif isinstance(s, ast.Assign) and len(s.targets) == 1:
